@@ -3,6 +3,7 @@ import OmbottModel.Lemmas.RouterDispatch
 import OmbottModel.Props.C01
 import OmbottModel.Lemmas.AppError
 import OmbottModel.Lemmas.AppRoute
+import OmbottModel.Lemmas.RegApi
 /-!
 C02 — Method dispatch: verb, ANY and HEAD fallbacks, 405 with exact Allow.
 Property theorems only; helper lemmas live in `Lemmas/Router*.lean`.
@@ -478,3 +479,313 @@ example :
 end NonVacuity
 
 end Ombott.Router
+
+
+/-! # ===== the registration surface (`Model/RegApi.lean`, `Lemmas/RegApi.lean`) =====
+
+`Ombott.route` in every call form, the verb shortcuts, `add_route`, the request hooks, `error`, the
+partial 404 hook, the module-level aliases and `run()`, stated over `App.step` / `World.step` (what the
+driver line `regapi hist` runs) and composed with the dispatch theorems above. -/
+namespace Ombott.RegApi
+open Py Ombott.Router
+
+/-- **`route_forms_agree`.**  For every application state, rule, method spelling(s) (one `str` or a list), name,
+overwrite flag and truthy callback: the direct form `route(rule, method, cb)`, the decorator form
+`@route(rule, method)`, the shortcut forms `app.<verb>(rule, callback=cb)` / `@app.<verb>(rule)` and `add_route` leave
+exactly the router `RadiRouter.add(rule, methods, cb, name, overwrite=…)` leaves (`methods` = the caller's, or the
+method the shortcut pins), change nothing else of the application, and return the callback unchanged (`add_route`:
+the route) — or raise what `RadiRouter.add` raises. -/
+theorem route_forms_agree (ctx : Ctx) (app : App) (f : Form) (rule : Str) (m m' : Methods) (name : Option Str)
+    (ow : Bool) (cb : Callback) (ht : cb.truthy = true) (hm : f.registers m = some m') :
+    app.step ctx (f.op rule m name ow cb) =
+      ({ app with router := (app.router.add ctx.upper ctx.cenv ⟨rule, m'.asList, cb.id, name, ow⟩).1 },
+        f.shows cb (app.router.add ctx.upper ctx.cenv ⟨rule, m'.asList, cb.id, name, ow⟩).2) :=
+  step_form ctx app f rule m m' name ow cb ht hm
+
+/-- **`shortcut_table_exact`** (over the table read off the live class): the shortcut attributes are exactly one per
+name of `HTTP_METHODS`, in that order; each attribute `a` pins the method `a.upper()`; the attribute is found under its
+own name; what the live `app.<a>(rule, callback=cb)` registered on a probe route is that one method; and in the model
+the shortcut form registers exactly `[a.upper()]` whatever method the caller had in mind. -/
+theorem shortcut_table_exact :
+    Gen.raShortcuts.map (·.2) = Gen.raHttpMethods ∧
+    (∀ x ∈ Gen.raShortcuts, asciiUpper x.1.toList = x.2.toList ∧ Gen.raShortcuts.find? (·.1 == x.1) = some x) ∧
+    Gen.raShortcutProbe = Gen.raShortcuts.map (fun x => (x.1, [x.2])) ∧
+    (∀ x ∈ Gen.raShortcuts, ∀ m, (Form.shortcut x.1).registers m = some (.one (asciiUpper x.1.toList)) ∧
+      (Form.shortcutDecorator x.1).registers m = some (.one (asciiUpper x.1.toList))) := by
+  have key : ∀ x ∈ Gen.raShortcuts, (Gen.raShortcuts.find? (·.1 == x.1)).map (fun y => Methods.one y.2.toList) =
+      some (.one (asciiUpper x.1.toList)) := by decide
+  refine ⟨by decide, by decide, by decide, ?_⟩
+  intro x hx m
+  exact ⟨key x hx, key x hx⟩
+
+/-- **`methods_upper_idempotent`.**  `RadiRouter.add` normalises with `[m.upper() for m in methods]`; for an
+idempotent `upper` (as `str.upper` is) registering the already upper-cased names is the same call. -/
+theorem methods_upper_idempotent (upper : Str → Str) (hid : ∀ s, upper (upper s) = upper s) (R : Router)
+    (cenv : CompileEnv) (a : AddArgs) :
+    (a.methods.map upper).map upper = a.methods.map upper ∧
+    R.add upper cenv { a with methods := a.methods.map upper } = R.add upper cenv a := by
+  have h1 : (a.methods.map upper).map upper = a.methods.map upper := by
+    rw [List.map_map]; apply List.map_congr_left; intro s _; exact hid s
+  refine ⟨h1, ?_⟩
+  unfold Router.add
+  simp only [h1]
+
+/-- **`registration_then_dispatch`.**  After a registration in ANY form on an application whose router came from a
+history `ops`, the router is the one of the history extended by that `RadiRouter.add`; hence (the `histories` theorem)
+a request is answered from the rule-by-rule selected route's method table by the first registered of `[upper verb,
+GET if HEAD, ANY]`, else 405 with the exact Allow, and a request whose method equals another case-insensitively
+gets the same answer. -/
+theorem registration_then_dispatch (ctx : Ctx) (ops : List Router.Op) (app : App)
+    (happ : app.router = Router.run ctx.upper ops)
+    (f : Form) (rule : Str) (m m' : Methods) (name : Option Str) (ow : Bool) (cb : Callback)
+    (ht : cb.truthy = true) (hm : f.registers m = some m')
+    (hok : ∀ op ∈ ops ++ [Router.Op.add ctx.cenv ⟨rule, m'.asList, cb.id, name, ow⟩], OpOK op)
+    (hs : NoSel ctx.env) (verb verb' path : Str) (hv : ctx.upper verb' = ctx.upper verb) :
+    (app.step ctx (f.op rule m name ow cb)).1.router =
+      Router.run ctx.upper (ops ++ [.add ctx.cenv ⟨rule, m'.asList, cb.id, name, ow⟩]) ∧
+    (app.step ctx (f.op rule m name ow cb)).1.router.handle ctx.upper ctx.env verb' path =
+      (app.step ctx (f.op rule m name ow cb)).1.router.handle ctx.upper ctx.env verb path ∧
+    match specResolve ctx.env (app.step ctx (f.op rule m name ow cb)).1.router.rules (stripSlash path) with
+    | none => ∃ v h p, (app.step ctx (f.op rule m name ow cb)).1.router.handle ctx.upper ctx.env verb path = .notFound v h p
+    | some (rl, vs) => ∃ route hooks,
+        (app.step ctx (f.op rule m name ow cb)).1.router.obj? rl.data = some route ∧ route.syms = rl.pat ∧
+        (route.methods.map (·.1)).Nodup ∧
+        (app.step ctx (f.op rule m name ow cb)).1.router.handle ctx.upper ctx.env verb path =
+          match dispatchSpec route (ctx.upper verb) with
+          | some mm => .found mm.handler mm.name
+              (makeParamsDict (if mm.params.isEmpty then rl.keys else mm.params) vs) hooks
+          | none => .notAllowed (joinComma (sortStrs (route.methods.map (·.1)))) := by
+  have hR : (app.step ctx (f.op rule m name ow cb)).1.router =
+      Router.run ctx.upper (ops ++ [.add ctx.cenv ⟨rule, m'.asList, cb.id, name, ow⟩]) := by
+    rw [step_form ctx app f rule m m' name ow cb ht hm, happ]
+    simp only [Router.run, List.foldl_append, List.foldl_cons, List.foldl_nil, Router.step]
+  rw [hR]
+  exact ⟨rfl, (case_insensitive ctx.upper).2 _ _ _ _ _ hv, histories ctx.upper _ hok ctx.env hs verb path⟩
+
+/-- **`emit_snapshot`.**  An emission calls hooks of the list as it was when the emission started, in that order:
+always a prefix of it, and all of it unless a hook raised — whatever the hooks do to the hook lists while they run
+(`prog` is arbitrary: adding, removing themselves or others, on this or the other event). -/
+theorem emit_snapshot (prog : Nat → HookProg) (app : App) (name : Str) (l : List Nat)
+    (hl : dictGet app.hooksGet.2 name = some l) :
+    (app.emit prog name).2.called <+: l ∧
+    ((app.emit prog name).2.error = none → (app.emit prog name).2.called = l) := by
+  unfold App.emit
+  simp only [hl]
+  refine ⟨emitLoop_called_prefix prog l _, ?_⟩
+  intro h
+  apply emitLoop_all
+  cases hr : (emitLoop prog l app.hooksGet.1).2.2 with
+  | false => rfl
+  | true => simp [hr] at h
+
+/-- an unknown hook name: `KeyError`, nothing is called -/
+theorem emit_unknown (prog : Nat → HookProg) (app : App) (name : Str)
+    (hl : dictGet app.hooksGet.2 name = none) :
+    (app.emit prog name).2 = ⟨[], some "KeyError"⟩ := by
+  unfold App.emit
+  simp only [hl]
+
+/-- does `int(code)` give `s` -/
+def codeIs (c : CodeArg) (s : Int) : Bool :=
+  match c.toInt with
+  | .ok n => n == s
+  | .error _ => false
+
+theorem error_step (cenv : CompileEnv) (app : App) (code : CodeArg) (h : Nat) (s : Int) :
+    (app.error cenv code none h).1.errorHandlerFor s =
+      if codeIs code s then some h else app.errorHandlerFor s := by
+  unfold App.error codeIs
+  cases hc : code.toInt with
+  | error e => simp
+  | ok c =>
+    have hn : (if isPartialCode c then Option.filter (fun x : Str => !x.isEmpty) none else none) = none := by
+      split <;> rfl
+    simp only [hn, App.errorHandlerFor, dictGet_dictSet']
+    by_cases hsc : s = c
+    · subst hsc; simp
+    · have : (c == s) = false := by simpa using fun h => hsc h.symm
+      simp [hsc, this]
+
+/-- **`error_handler_lookup`.**  After every sequence of `error(code)(handler)` registrations (code an `int` or a
+`str`; a `str` that `int()` refuses raises and registers nothing) on any application, the handler `_cast` picks for
+an `HTTPError` with status `s` is the LAST one registered with `int(code) = s`; if there is none, what the
+application had before (for a new application: the default handler). -/
+theorem error_handler_lookup (cenv : CompileEnv) (regs : List (CodeArg × Nat)) (app : App) (s : Int) :
+    (regs.foldl (fun a r => (a.error cenv r.1 none r.2).1) app).errorHandlerFor s =
+      match regs.reverse.find? (fun r => codeIs r.1 s) with
+      | some r => some r.2
+      | none => app.errorHandlerFor s := by
+  induction regs generalizing app with
+  | nil => rfl
+  | cons r rs ih =>
+    simp only [List.foldl_cons, List.reverse_cons, List.find?_append]
+    rw [ih]
+    cases hf : rs.reverse.find? (fun r => codeIs r.1 s) with
+    | some x => rfl
+    | none =>
+      simp only [Option.none_or, List.find?_cons, List.find?_nil, error_step]
+      cases hc : codeIs r.1 s <;> simp
+
+/-- the same through the operations the driver plays, from `Ombott()`: the default handler unless registered -/
+theorem error_handler_lookup_run (ctx : Ctx) (regs : List (CodeArg × Nat)) (s : Int) :
+    (App.run ctx (regs.map fun r => Op.error r.1 none r.2)).errorHandlerFor s =
+      (regs.reverse.find? (fun r => codeIs r.1 s)).map (·.2) := by
+  have := error_handler_lookup ctx.cenv regs App.init s
+  unfold App.run
+  rw [List.foldl_map]
+  simp only [App.step]
+  rw [this]
+  cases regs.reverse.find? (fun r => codeIs r.1 s) <;> rfl
+
+/-- **`partial_404_hook_choice`.**  On a 404 `Ombott.handler` looks at the LAST hook pair collected on the way
+(`hooks_collected[-1]`, the innermost hooked prefix) and at nothing else: if that pair has a partial hook it answers,
+called with `request.path[:1 + route_pos]` and the values matched so far; otherwise the answer is the plain 404 —
+also when an outer pair has a partial hook. -/
+theorem partial_404_hook_choice (reqPath : Str) (vals : List Val) (hooks : List (Nat × HookPair)) (p : Str) :
+    serveResolved reqPath (.notFound vals hooks p) =
+      match hooks.getLast? with
+      | some (pos, hp) =>
+        (match hp.partialHook with
+         | some h => .notFoundHook h (reqPath.take (1 + pos)) vals
+         | none => .notFound)
+      | none => .notFound := by
+  simp only [serveResolved]
+  cases hooks.getLast? with
+  | none => rfl
+  | some x => obtain ⟨pos, hp⟩ := x; cases hp.partialHook <;> rfl
+
+/-- `error(404, rule)(handler)` with a non-empty rule is `RadiRouter.add_hook(rule, handler, PARTIAL)` plus the
+`'404-hooks'` entry under the pattern; `error_handlers[404]` is not written -/
+theorem error_404_rule_registers (cenv : CompileEnv) (app : App) (rule : Str) (hne : rule ≠ []) (h : Nat) (s : Int) :
+    (app.error cenv (.int 404) (some rule) h).1.router = (app.router.addHook cenv rule h true).1 ∧
+    (app.error cenv (.int 404) (some rule) h).1.errorHandlerFor s = app.errorHandlerFor s ∧
+    (∀ pat, (app.router.addHook cenv rule h true).2 = .ok pat →
+      (app.error cenv (.int 404) (some rule) h).1.hooks404 = dictSet app.hooks404 pat h) := by
+  have hr : (if isPartialCode 404 then Option.filter (fun x : Str => !x.isEmpty) (some rule) else none) = some rule := by
+    have : isPartialCode 404 = true := by decide
+    rw [this]
+    cases rule with
+    | nil => exact absurd rfl hne
+    | cons c cs => rfl
+  unfold App.error
+  simp only [CodeArg.toInt, hr]
+  cases hh : app.router.addHook cenv rule h true with
+  | mk R out =>
+    cases out with
+    | error e => exact ⟨rfl, rfl, fun pat hp => by cases hp⟩
+    | ok pat => exact ⟨rfl, rfl, fun pat' hp => by cases hp; rfl⟩
+
+/-- **`default_app_aliases`** (over the table taken from the live objects with `__self__` / `is`): every alias of
+`Globals` and of the package is bound to `default_app()`; `route`, `on_route`, `error` resolve to application 0; and a
+call through an alias is the call on application 0. -/
+theorem default_app_aliases :
+    (∀ a ∈ Gen.raGlobalAliases, a.2.2.2 = true) ∧
+    (∀ h ∈ ["Globals", "ombott"], ∀ n ∈ ["route", "on_route", "error", "request", "response", "app"],
+      aliasTarget h n = some World.defaultApp) ∧
+    (∀ (ctx : Ctx) (w : World) (h n : String) (op : Op), aliasTarget h n = some World.defaultApp →
+      (Target.alias h n).accepts op = true →
+      World.step ctx w (.alias h n) op = World.step ctx w (.app World.defaultApp) op) := by
+  refine ⟨by decide, by decide, ?_⟩
+  intro ctx w h n op ht ha
+  have ha' : (aliasMethod h n == some op.methodName) = true := ha
+  unfold World.step
+  simp only [ha', Target.index, ht, Target.accepts, Bool.not_true, Bool.false_eq_true, if_false]
+
+/-- the decisions of `run()`: a non-callable application is refused before anything else; without an application the
+default one is served; the server is quiet if it was or `quiet=True` was passed, and the banner is written exactly
+when it is not quiet; a server name is looked up in `server_names` (a `str` outside it is not callable) -/
+theorem run_plan_spec (a : RunArgs) :
+    (a.appCallable = false → runPlan a = .error "ValueError") ∧
+    (∀ p, runPlan a = .ok p → a.appCallable = true ∧ p.isDefaultApp = a.app.isNone ∧
+      p.quiet = (a.serverQuiet || a.quiet) ∧ p.banner = !p.quiet ∧
+      (∀ s, a.server = .name s → (s, p.server) ∈ Gen.raServerNames)) := by
+  constructor
+  · intro h; unfold runPlan; simp [h]
+  · intro p hp
+    unfold runPlan at hp
+    cases hc : a.appCallable with
+    | false => simp [hc] at hp
+    | true =>
+      simp only [hc, Bool.not_true, Bool.false_eq_true, if_false] at hp
+      cases hsv : a.server with
+      | factory id =>
+        simp only [hsv] at hp
+        cases happ : a.app <;> simp only [happ] at hp <;> cases hp <;>
+          exact ⟨rfl, rfl, rfl, rfl, fun s h => by cases h⟩
+      | name s =>
+        simp only [hsv] at hp
+        cases hf : Gen.raServerNames.find? (·.1 == s) with
+        | none => simp [hf] at hp
+        | some x =>
+          obtain ⟨nm, cls⟩ := x
+          simp only [hf] at hp
+          have hmem := List.mem_of_find?_eq_some hf
+          have hnm : nm = s := by simpa using List.find?_some hf
+          subst hnm
+          cases happ : a.app <;> simp only [happ] at hp <;> cases hp <;>
+            exact ⟨rfl, rfl, rfl, rfl, fun s' h => by cases h; exact hmem⟩
+
+section NonVacuityRegApi
+
+def raCtx : Ctx :=
+  { upper := asciiUpper, cenv := fun _ => none, env := fun _ _ => none,
+    hook := fun h => if h == 10 then ⟨[.removeHook "before_request".toList 10, .addHook "before_request".toList 12], false⟩ else {},
+    aborts := fun h => if h == 3 then some 418 else none }
+
+/-- `route_forms_agree` / `registration_then_dispatch`: hypotheses met (truthy callback, a live shortcut) and the five
+forms really leave one and the same router; a lower-case request reaches the callback registered as `Post` -/
+example : (Form.shortcut "post").registers (.one "x".toList) = some (.one "POST".toList) := by decide
+
+example :
+    ([Form.direct, .decorator, .addRoute].map fun f =>
+      (((App.init.step raCtx (f.op "/a".toList (.many ["Post".toList]) none false ⟨1, true⟩)).1.router.handle
+        asciiUpper raCtx.env "post".toList "/a".toList))) =
+    [.found 1 "POST".toList [] [], .found 1 "POST".toList [] [], .found 1 "POST".toList [] []] ∧
+    ([Form.shortcut "post", .shortcutDecorator "post"].map fun f =>
+      (((App.init.step raCtx (f.op "/a".toList (.one "x".toList) none false ⟨1, true⟩)).1.router.handle
+        asciiUpper raCtx.env "pOsT".toList "/a".toList))) =
+    [.found 1 "POST".toList [] [], .found 1 "POST".toList [] []] := by decide +kernel
+
+/-- the hypotheses of `registration_then_dispatch` on the empty history -/
+example : ∀ op ∈ ([] : List Router.Op) ++ [Router.Op.add raCtx.cenv ⟨"/a".toList, ["Post".toList], 1, none, false⟩], OpOK op := by
+  intro op hop
+  simp only [List.nil_append, List.mem_singleton] at hop
+  subst hop
+  exact rule_without_marker_ok _ _ (by decide)
+
+/-- `methods_upper_idempotent`: `asciiUpper` is idempotent on every name of the generated tables and on mixed spellings -/
+example : (Gen.raHttpMethods ++ ["get", "pOsT", "any", "x-y_1"]).all
+    (fun m => asciiUpper (asciiUpper m.toList) == asciiUpper m.toList) = true := by decide
+
+/-- `emit_snapshot`: hook 10 removes itself and adds hook 12 while running; the emission still calls exactly the
+snapshot `[10, 11]`, and the next one starts from `[11, 12]` -/
+example :
+    let app := App.run raCtx [.addHook "before_request".toList 10, .addHook "before_request".toList 11]
+    dictGet app.hooksGet.2 "before_request".toList = some [10, 11] ∧
+    (app.emit raCtx.hook "before_request".toList).2 = ⟨[10, 11], none⟩ ∧
+    (app.emit raCtx.hook "before_request".toList).1.hookList "before_request".toList = [11, 12] := by decide +kernel
+
+/-- `emit_unknown` -/
+example : dictGet App.init.hooksGet.2 "before".toList = none := by decide
+
+/-- `error_handler_lookup`: int and str codes, the last registration wins, a refused code registers nothing -/
+example :
+    let app := App.run raCtx [.error (.int 404) none 30, .error (.str " +4_04 ".toList) none 31,
+      .error (.str "4x4".toList) none 32, .error (.str "500".toList) none 33]
+    (app.errorHandlerFor 404, app.errorHandlerFor 500, app.errorHandlerFor 403) = (some 31, some 33, none) := by
+  decide +kernel
+
+/-- `partial_404_hook_choice` / `error_404_rule_registers`: the hooked prefix answers a 404 below it -/
+example :
+    (match ((App.init.error raCtx.cenv (.int 404) (some "/api".toList) 30).1.router.serve asciiUpper raCtx.env
+        "GET".toList "/api/zz".toList) with
+     | .notFoundHook h arg _ => h == 30 && arg == "/api".toList
+     | _ => false) = true := by decide +kernel
+
+/-- `run_plan_spec` -/
+example : runPlan { app := none, server := .name "wsgiref", quiet := true } =
+    .ok { app := 0, isDefaultApp := true, server := "WSGIRefServer", quiet := true, banner := false } := by decide
+
+end NonVacuityRegApi
+
+end Ombott.RegApi
